@@ -626,7 +626,7 @@ func (env *SpecEnv) eval(x ast.Expr) SV {
 			case *IfaceV:
 				isNil = eq(o.Tag, intLit(0))
 			case *PtrV:
-				isNil = eq(o.Addr, intLit(0))
+				isNil = o.nilCond()
 			case *SliceV:
 				isNil = eq(o.Base, intLit(0))
 			default:
